@@ -71,8 +71,9 @@ func c11Docs() []c11DocT {
 		{name: "D2", json: func(_ [4]phase0.BLSPubKey) string {
 			return `{"version":2,"fee_recipient":"` + feeA + `","relays":{"` + c11R1 + `":{"gas_limit":"` + gasHigh + `"},"` + c11R2 + `":{}}}`
 		}, exp: func(int) *c11Exp { return &c11Exp{fee: feeA, relays: both(feeA, gasHigh, gasDef)} }},
-		{name: "D3", json: func(p [4]phase0.BLSPubKey) string {
-			return `{"version":2,"fee_recipient":"` + feeA + `","relays":{"` + c11R1 + `":{},"` + c11R2 + `":{}},"proposers":[{"proposer":"` + p[2].String() + `","fee_recipient":"` + feeC + `","relays":{"` + c11R2 + `":{"disabled":true}}}]}`
+		// D3: the entry for validator 2 names it by its account (wallet/account expression), not by its public key
+		{name: "D3", json: func(_ [4]phase0.BLSPubKey) string {
+			return `{"version":2,"fee_recipient":"` + feeA + `","relays":{"` + c11R1 + `":{},"` + c11R2 + `":{}},"proposers":[{"proposer":"^W/v2$","fee_recipient":"` + feeC + `","relays":{"` + c11R2 + `":{"disabled":true}}}]}`
 		}, exp: func(v int) *c11Exp {
 			if v == 2 {
 				return &c11Exp{fee: feeC, relays: map[string][2]string{c11R1: {feeC, gasDef}}}
@@ -250,7 +251,9 @@ func (m *c11Majordomo) Fetch(_ context.Context, _ string) ([]byte, error) {
 
 func c11Units(tier string) []hx.Unit {
 	docs := c11Docs()
-	fails := []string{"", "relay1", "node1", "signer2", "node1-inactive", "signer-high"}
+	// "accounts": the account manager cannot say which accounts validate while the round runs (the round and the
+	// preparation update end early, nothing is owed in them; the next round is owed in full)
+	fails := []string{"", "relay1", "node1", "signer2", "node1-inactive", "signer-high", "accounts"}
 	rounds := 3
 	var units []hx.Unit
 	for d0 := range docs {
@@ -320,8 +323,17 @@ func c11Units(tier string) []hx.Unit {
 					e.docs = append(e.docs, e.doc)
 					e.fails = append(e.fails, e.failing)
 					svc.VerifFetchExecutionConfig(ctx)
+					// settings are also looked up without an account (vouch's REST handlers know only the public key):
+					// what such a lookup resolves to must not colour the lookups with the account that follow
+					for vi := 1; vi <= 3; vi++ {
+						_, _ = svc.ProposerConfig(ctx, nil, e.accts[vi].pubkey())
+					}
+					if e.failing == "accounts" {
+						accts.err = errors.New("scripted account manager failure")
+					}
 					svc.VerifSubmitValidatorRegistrations(ctx)
 					_ = prep.UpdatePreparations(ctx)
+					accts.err = nil
 					mc.Sleep(int64(7 * time.Minute))
 				}
 				// registrations arriving over REST from a validator vouch does not control, and from one it does
@@ -377,6 +389,9 @@ func c11Check(e *c11Env, r *mc.Result) mc.Verdict {
 	for i, dn := range e.docs {
 		rd := i // round 0 is the one the constructor started
 		failing := e.fails[i]
+		if failing == "accounts" {
+			continue // nothing can be done in this round; what it must not do is stop the later ones
+		}
 		for vi := 1; vi <= 3; vi++ {
 			exp := docs[dn].exp(vi)
 			pub := e.accts[vi].pubkey()
